@@ -93,7 +93,11 @@ func bytesToCodes(b []byte) []int {
 const tokenCap = 20000
 
 // lexAll runs the real lexer to EOF / ILLEGAL. capped = the token cap was hit (no progress).
-func lexAll(src string) (toks []rtok, capped bool) {
+func lexAll(src string) (toks []rtok, capped bool) { return lexTokens(src, true) }
+
+// lexTokens runs the real lexer to EOF; with stopAtIllegal it stops after the first illegal token (where the
+// specification's lexer and the parser stop).
+func lexTokens(src string, stopAtIllegal bool) (toks []rtok, capped bool) {
 	starts := []int{0}
 	for i := 0; i < len(src); i++ {
 		if src[i] == '\n' {
@@ -125,7 +129,7 @@ func lexAll(src string) (toks []rtok, capped bool) {
 		r.S = off(r.SL, r.SC)
 		r.E = off(r.EL, r.EC)
 		toks = append(toks, r)
-		if t.Type == token.EOF || t.Type == token.ILLEGAL {
+		if t.Type == token.EOF || (stopAtIllegal && t.Type == token.ILLEGAL) {
 			return toks, false
 		}
 	}
@@ -330,12 +334,21 @@ func lexFamily(raw json.RawMessage) Result {
 	prop := os.Getenv("TWH_PROP")
 	switch prop {
 	case "C19":
-		ts, capped := lexAll(string(src))
+		// the predicates are evaluated on ALL tokens the lexer hands out, also those after an illegal one; the
+		// comparison with the specification's tokens stops at the first illegal token, where the specification stops
+		all, capped := lexTokens(string(src), false)
 		if capped {
 			res.Status, res.Kind, res.Msg = "viol", "hang", "lexer produced tokens without reaching EOF"
 			return res
 		}
-		if k, m := tilingViolation(src, ts); k != "" {
+		ts := all
+		for i, t := range all {
+			if t.T == "ILLEGAL" {
+				ts = all[:i+1]
+				break
+			}
+		}
+		if k, m := tilingViolation(src, all); k != "" {
 			res.Status, res.Kind, res.Msg = "viol", k, m
 			last := ts[len(ts)-1]
 			res.Tags = append(res.Tags, "last:"+last.T)
